@@ -401,3 +401,64 @@ func (v V) Show() string {
 	}
 	return v.Src()
 }
+
+// Inspect is the documented printed form of a data value (what println of a container shows, and what
+// save() writes): integers in decimal, floats in shortest 'f' form, strings Go-quoted, containers without spaces.
+func (v V) Inspect() string {
+	switch v.K {
+	case Int:
+		return strconv.FormatInt(v.I, 10)
+	case Float:
+		return strconv.FormatFloat(v.F, 'f', -1, 64)
+	case Bool:
+		return strconv.FormatBool(v.B)
+	case Nil:
+		return "nil"
+	case Str:
+		return strconv.Quote(v.S)
+	case Arr:
+		parts := make([]string, len(v.A))
+		for i, e := range v.A {
+			parts[i] = e.Inspect()
+		}
+		return "[" + strings.Join(parts, ",") + "]"
+	default:
+		parts := make([]string, len(v.M))
+		for i, p := range v.M {
+			parts[i] = p.K.Inspect() + ":" + p.V.Inspect()
+		}
+		return "{" + strings.Join(parts, ",") + "}"
+	}
+}
+
+// Rest / First / Range on maps as the language documents them.
+func (v V) MapFirst() V {
+	if len(v.M) == 0 {
+		return N()
+	}
+	return M(KV{S("key"), v.M[0].K}, KV{S("value"), v.M[0].V})
+}
+
+func (v V) MapRest() V {
+	if len(v.M) <= 1 {
+		return N()
+	}
+	r := v.Copy()
+	r.M = r.M[1:]
+	return r
+}
+
+func (v V) MapRange(l, r int) V {
+	c := v.Copy()
+	c.M = c.M[l:r]
+	return c
+}
+
+// Merge is m + n: pairs of n set into m one by one.
+func (v V) Merge(n V) V {
+	r := v.Copy()
+	for _, p := range n.M {
+		r = r.Set(p.K, p.V)
+	}
+	return r
+}
